@@ -313,7 +313,7 @@ pub fn execute(s: &Scenario) -> Result<CaseReport, Failure> {
 
 pub fn check(check: &mut Check) {
   let ctx = check.ctx.clone();
-  let n = ctx.tier.pick(1500u64, 150_000u64);
+  let n = ctx.tier.pick(1000u64, 150_000u64);
   let n = std::env::var("VERIF_CONC_CASES").ok().and_then(|s| s.parse().ok()).unwrap_or(n); // development aid
   let out = vcore::drive(&ctx, &check.findings, 5, n, scenario_strategy, |s| {
     let r = execute(s);
@@ -326,5 +326,5 @@ pub fn check(check: &mut Check) {
     r
   });
   check.absorb(crate::ENGINE_CONC, out);
-  check.require_class("shared_key", 500);
+  check.require_class("shared_key", 300);
 }
